@@ -6,6 +6,7 @@ import itertools
 import json
 import os
 import random
+import re
 import shutil
 import signal
 import struct
@@ -346,3 +347,270 @@ def c18_eligible_search(meta, seed, budget):
         s = ",".join(parts)
         if "-" in s:
             yield {"allowed": s, "ncpu": max(16, cur + 1)}
+
+
+# ---------------------------------------------------------------------------------------------------------
+# C17: sanitizer build of the working tree's extension
+# ---------------------------------------------------------------------------------------------------------
+UTMP = struct.Struct("hi32s4s32s256shhiii4i20s")
+assert UTMP.size == 384
+HERE = os.path.dirname(os.path.abspath(__file__))
+
+
+def utmp_record(ut_type=7, pid=1234, line=b"pts/0", user=b"root", host=b"", sec=1700000000):
+    # neighbouring fields are non-zero so that a read past a full-width field becomes visible in the result
+    return UTMP.pack(ut_type, pid, line, b"ts/0", user, host, 0x4141, 0x4141, 0x41414141, sec, 0, 0, 0, 0, 0, b"")
+
+
+def cut(b):
+    return b.split(b"\0", 1)[0]
+
+
+def users_expected(recs):
+    out = []
+    for (t, pid, line, user, host, sec) in recs:
+        if t != 7:
+            continue
+        h = cut(host[:256])
+        if h in (b":0", b":0.0"):
+            h = b"localhost"
+        out.append([cut(user[:32]).hex(), cut(line[:32]).hex(), h.hex(), float(sec), pid])
+    return out
+
+
+def run_driver(mode, arg, sanitize=True, timeout=600):
+    from replay import cbuild
+    d = fresh_build(sanitize=sanitize)
+    env = cbuild.asan_env(d) if sanitize else dict(os.environ, PYTHONPATH=d)
+    p = subprocess.run([sys.executable, os.path.join(HERE, "asan_driver.py"), mode, json.dumps(arg)], env=env,
+                       capture_output=True, text=True, timeout=timeout)
+    lines = p.stdout.splitlines()
+    last_call = next((l for l in reversed(lines) if l.startswith("CALL ")), None)
+    done = any(l.startswith("DONE") for l in lines)
+    results = [json.loads(l[7:]) for l in lines if l.startswith("RESULT ")]
+    return {"rc": p.returncode, "done": done, "last_call": last_call, "results": results,
+            "stderr": p.stderr[-8000:], "n_calls": sum(1 for l in lines if l.startswith("CALL "))}
+
+
+def san_summary(stderr):
+    for key in ("ERROR: AddressSanitizer", "runtime error", "SUMMARY:"):
+        for ln in stderr.splitlines():
+            if key in ln:
+                return re.sub(r"==\d+==", "", ln).strip()[:200]
+    return stderr.strip().splitlines()[-1][:200] if stderr.strip() else "killed"
+
+
+@runner("c17:users")
+def c17_users(model, meta):
+    """counter-model of the field-width obligation -> utmp file -> real users() (sanitizer build)"""
+    def field(name, n, default):
+        v = model.get(name)
+        if isinstance(v, list):
+            b = bytes(x & 0xff for x in v)[:n]
+            return b + bytes(n - len(b))
+        return default
+    user = field("getutent#0.ut_user", 32, b"root")
+    line = field("getutent#0.ut_line", 32, b"pts/0")
+    host = field("getutent#0.ut_host", 256, b"")
+    if not host.strip(b"\0"):
+        host = b"host.example.org"        # unconstrained by the counter-model: any value is a witness
+    if "recs" in model:
+        recs = [tuple(bytes.fromhex(x) if isinstance(x, str) else x for x in r) for r in model["recs"]]
+    else:
+        recs = [(7, 4321, line, user, host, 1700000000), (7, 77, b"tty1", b"second", b":0", 1700000001)]
+    d = tempfile.mkdtemp(prefix="vfutmp_")
+    try:
+        path = os.path.join(d, "utmp")
+        with open(path, "wb") as f:
+            for (t, pid, ln, us, ho, sec) in recs:
+                f.write(utmp_record(t, pid, ln, us, ho, sec))
+        r = run_driver("users", {"files": [path]})
+    finally:
+        shutil.rmtree(d, ignore_errors=True)
+    want = users_expected(recs)
+    got = r["results"][0].get("value") if r["results"] else None
+    bad = (not r["done"]) or got != want
+    tag = None
+    if not r["done"]:
+        tag = "users(): " + san_summary(r["stderr"])
+    elif got != want:
+        tag = "users() differs from the field-width decoding of the same records"
+    return {"env": {}, "result": got if r["done"] else r["stderr"][-400:], "expected": want, "exc": None,
+            "verdict": bad, "tag": tag}
+
+
+@search("c17:users")
+def c17_users_search(meta, seed, budget):
+    rnd = random.Random(seed)
+
+    def rb(n, full=False):
+        k = n if full else rnd.randint(0, n)
+        return bytes(rnd.choice(b"abcXYZ09:./-\xff\xc3\xa9 ") for _ in range(k))
+
+    def hx(recs):
+        return {"recs": [[t, pid, ln.hex(), us.hex(), ho.hex(), sec] for (t, pid, ln, us, ho, sec) in recs]}
+    yield hx([(7, 1, b"pts/0", b"root", b"", 1)])
+    yield hx([(7, 1, b"p" * 32, b"u" * 32, b"h" * 256, 2 ** 31 - 1)])                 # every field full width
+    yield hx([(7, 5, b"tty1", b"bob", b":0", 5), (7, 6, b"tty2", b"al", b":0.0", 6), (7, 7, b"t", b"x", b":0.0.0", 7)])
+    yield hx([(t, t, b"l", b"u", b"h", t) for t in range(0, 10)])                      # every record type
+    yield hx([(7, -1, b"\xff" * 32, b"\xfe" * 32, b"\xfd" * 256, -1)])
+    yield hx([(7, i, b"l%d" % i, b"u" * 32, b":0" + b"\0" * 10 + b"junk", i) for i in range(64)])
+    n = 0
+    while n < budget:
+        n += 1
+        yield hx([(rnd.choice([7, 7, 7, 8, 6, 1, 0]), rnd.randint(-5, 99999), rb(32, rnd.random() < .3), rb(32, rnd.random() < .3),
+                   rnd.choice([b":0", b":0.0", rb(256), rb(256, True)]), rnd.randint(0, 2 ** 31 - 1))
+                  for _ in range(rnd.randint(1, 8))])
+
+
+def mounts_line(dev, mp, typ, opts):
+    def esc(b):
+        return b.replace(b"\\", b"\\134").replace(b" ", b"\\040").replace(b"\t", b"\\011").replace(b"\n", b"\\012")
+    return esc(dev) + b" " + esc(mp) + b" " + esc(typ) + b" " + esc(opts) + b" 0 0\n"
+
+
+@runner("c17:mounts")
+def c17_mounts(model, meta):
+    ents = [tuple(bytes.fromhex(x) for x in e) for e in model["entries"]]
+    d = tempfile.mkdtemp(prefix="vfmnt_")
+    try:
+        path = os.path.join(d, "mounts")
+        with open(path, "wb") as f:
+            for e in ents:
+                f.write(mounts_line(*e))
+        r = run_driver("mounts", {"files": [path], "repeat": model.get("repeat", 3)})
+    finally:
+        shutil.rmtree(d, ignore_errors=True)
+    res = r["results"][0] if r["results"] else None
+
+    def utf8(b):
+        try:
+            b.decode("utf-8")
+            return True
+        except UnicodeDecodeError:
+            return False
+    # glibc's getmntent() parses each line in a 4096-byte static buffer and drops the rest of a longer line: for such
+    # files only "no sanitizer report, no crash" is judged (the truncation is libc's, not the extension's)
+    long_line = any(len(mounts_line(*e)) >= 4095 for e in ents)
+    if long_line:
+        ok = r["done"] and res is not None
+        return {"env": {}, "result": res if r["done"] else r["stderr"][-400:], "expected": "no crash", "exc": None,
+                "verdict": not ok, "tag": None if ok else "disk_partitions(): " + san_summary(r["stderr"])}
+    if all(utf8(e[2]) and utf8(e[3]) for e in ents):
+        want = {"file": None, "value": [[x.hex() for x in e] for e in ents]}
+    else:
+        want = {"file": None, "exc": "UnicodeDecodeError"}       # 's' conversion: a clean Python exception
+    bad = (not r["done"]) or res is None or {k: v for k, v in res.items() if k != "file"} != {k: v for k, v in want.items() if k != "file"}
+    tag = None
+    if not r["done"]:
+        tag = "disk_partitions(): " + san_summary(r["stderr"])
+    elif bad:
+        tag = "disk_partitions() differs from the independent decoding of the same mounts file"
+    return {"env": {}, "result": res if r["done"] else r["stderr"][-400:], "expected": want, "exc": None, "verdict": bad, "tag": tag}
+
+
+@search("c17:mounts")
+def c17_mounts_search(meta, seed, budget):
+    rnd = random.Random(seed)
+
+    def hx(ents, **kw):
+        return dict({"entries": [[x.hex() for x in e] for e in ents]}, **kw)
+    yield hx([(b"/dev/sda1", b"/", b"ext4", b"rw,relatime")])
+    yield hx([(b"/dev/sda1", b"/mnt/my disk", b"ext4", b"rw"), (b"tmpfs", b"/tmp\ttab", b"tmpfs", b"rw,size=1k")])
+    yield hx([(b"/dev/x", b"/m", b"vfat", b"rw,iocharset=\xff\xfe")], repeat=40)           # non-UTF-8 options
+    yield hx([(b"/dev/x", b"/m", b"\xff\xfe", b"rw")], repeat=40)                           # non-UTF-8 fs type
+    yield hx([(b"/dev/\xff", b"/m\xfe", b"ext4", b"rw")])                                  # surrogateescape fields
+    yield hx([(b"d" * 3000, b"/" + b"m" * 3000, b"t" * 100, b"o" * 2000)])                  # 8 kB line
+    yield hx([(b"/dev/sd%d" % i, b"/mnt/%d" % i, b"ext4", b"rw") for i in range(256)])
+    n = 0
+    while n < budget:
+        n += 1
+        def rb(k):
+            return bytes(rnd.choice(b"abc/ \t\\09,=\xff\xc3\xa9") for _ in range(rnd.randint(1, k))) or b"x"
+        yield hx([(rb(30), b"/" + rb(30), rnd.choice([b"ext4", b"tmpfs", rb(8)]), rnd.choice([b"rw", rb(40)]))
+                  for _ in range(rnd.randint(1, 6))], repeat=5)
+
+
+def c_entries():
+    out = []
+    for mod, f in (("linux", "psutil/_psutil_linux.c"), ("posix", "psutil/_psutil_posix.c")):
+        txt = open(os.path.join(REPO, f)).read()
+        import re
+        for m in re.finditer(r'\{"(\w+)",\s*\w+,\s*METH_VARARGS', txt):
+            out.append((mod, m.group(1)))
+    return out
+
+
+@runner("c17:asan")
+def c17_asan(model, meta):
+    """one slice of the argument grid over every entry of the mod_methods tables"""
+    ents = c_entries()
+    skip, limit = model.get("skip", 0), model.get("limit", 10 ** 9)
+    fails = []
+    total = 0
+    while len(fails) < 3:
+        r = run_driver("grid", {"entries": ents, "skip": skip, "limit": limit}, timeout=1500)
+        total += r["n_calls"]
+        if r["done"] or r["rc"] == 0:
+            break
+        fails.append(f"{(r['last_call'] or 'CALL ?').split(' ', 2)[-1]} -> {san_summary(r['stderr'])}")
+        try:
+            skip = int(r["last_call"].split()[1])
+        except Exception:  # noqa: BLE001
+            break
+    return {"env": {}, "result": fails, "expected": [], "exc": None, "verdict": bool(fails), "calls": total,
+            "tag": ("extension entry point " + fails[0])[:220] if fails else None}
+
+
+@search("c17:asan")
+def c17_asan_search(meta, seed, budget):
+    # quick: first `budget` calls per slice layout; thorough: the whole grid
+    if budget <= 1000:
+        yield {"skip": 0, "limit": 10 ** 9 if budget >= 1000 else budget * 40}
+    else:
+        yield {"skip": 0, "limit": 10 ** 9}
+
+
+@runner("c17:ethtool")
+def c17_ethtool(model, meta):
+    """net_if_duplex_speed() on a NIC whose driver reports the counter-model's speed words (ioctl answered by an
+    LD_PRELOAD shim), sanitizer build"""
+    from replay import cbuild
+    d = fresh_build(sanitize=True)
+    hi = int(model.get("speed_hi", model.get("ethcmd.speed_hi", 0xffff))) & 0xffff
+    lo = int(model.get("speed", model.get("ethcmd.speed", 0xffff))) & 0xffff
+    shim = os.path.join(d, "ioctl_shim.so")
+    if not os.path.exists(shim):
+        subprocess.run(["cc", "-shared", "-fPIC", "-O1", os.path.join(HERE, "ioctl_shim.c"), "-o", shim, "-ldl"], check=True)
+    env = cbuild.asan_env(d, {"VF_SPEED": str(lo), "VF_SPEED_HI": str(hi)})
+    env["LD_PRELOAD"] = env["LD_PRELOAD"] + " " + shim
+    code = "import psutil._psutil_linux as c; print(c.net_if_duplex_speed('lo'))"
+    p = subprocess.run([sys.executable, "-c", code], env=env, capture_output=True, text=True, timeout=120)
+    full = (hi << 16) | lo
+    want = [1, 0 if (full == 0xffffffff or full > 2 ** 31 - 1) else full]
+    out = p.stdout.strip()
+    bad = p.returncode != 0 or out != str(want)
+    tag = None
+    if p.returncode != 0:
+        tag = "net_if_duplex_speed(): " + san_summary(p.stderr)
+    elif bad:
+        tag = f"net_if_duplex_speed() -> {out}, expected {want}"
+    return {"env": {}, "result": out or p.stderr[-300:], "expected": want, "exc": None, "verdict": bad, "tag": tag}
+
+
+@search("c17:ethtool")
+def c17_ethtool_search(meta, seed, budget):
+    for hi, lo in ((0, 1000), (0, 0xffff), (0xffff, 0xffff), (0x7fff, 0xffff), (0x8000, 0), (1, 0x86a0), (0, 0)):
+        yield {"speed_hi": hi, "speed": lo}
+
+
+@runner("c17:mounts_own")
+def c17_mounts_own(model, meta):
+    """ownership obligations of disk_partitions() concern its error paths: drive them with entries whose 's'
+    conversion fails (non-UTF-8 type / options), many times, on the sanitizer build"""
+    for ents in ([(b"/dev/x", b"/m", b"vfat", b"rw,iocharset=\xff\xfe")], [(b"/dev/x", b"/m", b"\xff\xfe", b"rw")],
+                 [(b"/dev/a", b"/a", b"ext4", b"rw"), (b"/dev/\xff", b"/m\xfe", b"ext4", b"\xfe")]):
+        r = c17_mounts({"entries": [[x.hex() for x in e] for e in ents], "repeat": 60}, meta)
+        if r["verdict"]:
+            return r
+    return r
